@@ -134,7 +134,7 @@ def modelStep (d : DSt) (ts : List String) : DSt × String :=
     | _, _, _ => (d, "bad-op")
   | ["act", a] =>
     match parseAction a with
-    | some a => finishRes d (doAction cfg st a)
+    | some a => finishRes d (doAction st a)
     | none => (d, "bad-op")
   | ["geom", w, t, l, n, c] =>
     match ints? [w, t, l, n, c] with
@@ -244,15 +244,15 @@ def specApply (m : Mon) (kind : Kind) (a : Action) : Mon :=
   match a.act with
   | .unref => { m with cur := { st with owned := st.owned.setIfInBounds a.win (st.owned.getD a.win 0 - 1) }, affected := m.affected ++ sub }
   | .close | .hide | .unhide | .stealOn | .stealOff =>
-    { m with cur := okOr (doAction cfg st a) st, affected := m.affected ++ sub }
+    { m with cur := okOr (doAction st a) st, affected := m.affected ++ sub }
   | .focus =>
     let aff := if kind = Kind.key then
         subtree t f (topAncestor t f a.win) ++ (match t.wins[0]? with
           | some r => (match r.focusedChild with | some fc => subtree t f fc | none => [])
           | none => [])
       else []
-    { m with cur := okOr (doAction cfg st a) st, affected := m.affected ++ aff }
-  | _ => { m with cur := okOr (doAction cfg st a) st }
+    { m with cur := okOr (doAction st a) st, affected := m.affected ++ aff }
+  | _ => { m with cur := okOr (doAction st a) st }
 
 def specDestroy (st : St) (w : Id) : St :=
   let t := st.tree
@@ -298,7 +298,7 @@ def checkCall (m : Mon) (what : String) (origin : Id) (absL absC : Int) (button 
     let st := { st with binds := st.binds.setIfInBounds bi { b with count := b.count + 1 } }
     e.actions.foldl (fun m a => specApply m c.kind a) { m with cur := st }
 
-def nBindings (st : St) (kind : Kind) (win : Id) : Nat := (bindingsOf st kind win).length
+def nBindings (st : St) (kind : Kind) (win : Id) : Nat := (bindingsOf st.binds kind win).length
 
 /-- One dispatch (`_handle_key` / `_handle_mouse` from `origin`): returns the monitor and the claiming window. -/
 def checkSegment (m : Mon) (kind : Kind) (what : String) (origin : Option Id) (absL absC : Int) (button mod : Option Int)
@@ -311,10 +311,10 @@ def checkSegment (m : Mon) (kind : Kind) (what : String) (origin : Option Id) (a
     | some o =>
       if !visibleChain t0 f0 o then [] else
       match kind with
-      | .key => keyOrder t0 (routeFuel t0) o
+      | .key => (keyOrder t0 (routeFuel t0) o).getD []
       | .mouse =>
         match absGeometry t0 f0 o with
-        | .ok g => (mouseVisits t0 (routeFuel t0) o (absL - g.top) (absC - g.left)).map (·.1)
+        | .ok g => ((mouseVisits t0 (routeFuel t0) o (absL - g.top) (absC - g.left)).getD []).map (·.1)
         | .ub _ => []
   let refOrder := refOrder.filter hasB
   let m := { m with affected := exempt }
